@@ -248,6 +248,13 @@ fn mesh1d(case: &mut Case) -> Result<(), String> {
     // ---- output -> read round trip
     let prec = case.src.urange(3, 12);
     let file = scratch_file();
+    // the path may already hold a longer file written by another mesh (output must replace it, not overwrite its head)
+    let pre_existing = case.src.coin();
+    if pre_existing {
+        let big = Mesh1D::<f64, f64>::new(Vector::<f64>::linspace(-7.0, 9.0, n + 5), nv + 1);
+        big.output(&file, 12);
+        case.class("1-D output over an existing longer file");
+    }
     mesh.output(&file, prec);
     // the receiving mesh had 2..=16 nodes before (fewer or more than the file) and non-zero data
     let old_n = case.src.urange(2, 16);
@@ -256,6 +263,13 @@ fn mesh1d(case: &mut Case) -> Result<(), String> {
         for v in 0..nv {
             back[i][v] = 100.0 + i as f64;
         }
+    }
+    // the receiving mesh has been queried before (a search hint or cache may point into the old grid)
+    if case.src.coin() {
+        let xq = -3.0 + 8.0 * case.src.f64_in(0.55, 0.999);
+        let _ = back.get_interpolated_vars(xq);
+        let _ = back.trapezium(0);
+        case.class("1-D read() into a mesh that was interpolated before");
     }
     back.read(&file);
     let _ = std::fs::remove_file(&file);
@@ -574,7 +588,7 @@ impl Prop for C19 {
         "1-D (1/2) and 2-D (1/2) meshes with 2..=12 nodes per direction on increasing dyadic grids (spacings random multiples of 2^-9 up to 4, uniform with probability 1/5; origin near 0 or, with probability 1/4, at +-2^10..2^20), 1..=4 variables, integer nodal data; \
          write histories of 1..=30 steps through set_nodes_vars, IndexMut, +=, apply (bilinear function) and assign against an array model. Checked: nnodes/nvars/nodes/coord/xnodes/ynodes, get_nodes_vars and the index operator at every node, \
          cross_section_xnode/ynode (other direction's nodes, right row/column), var_as_matrix (nx x ny, entry (i,j)); 1-D interpolation at every node (nodal value) and at the mid-point, two random interior points and two points 2e-6..1e-4 inside either end of every cell (all at least 1e-6 from a node) \
-         (linear interpolant, 1e-12 relative); trapezium and square_trapezium against the double-double sum of cell contributions, and against the closed form for linear (1-D) / bilinear (2-D) data; output(file, precision 3..=12) then read into a mesh that previously had 2..=16 nodes and other data \
+         (linear interpolant, 1e-12 relative); trapezium and square_trapezium against the double-double sum of cell contributions, and against the closed form for linear (1-D) / bilinear (2-D) data; output(file, precision 3..=12) (one time in two over an existing longer file at the same path) then read into a mesh that previously had 2..=16 nodes and other data (and, one time in two, has been interpolated and integrated before) \
          reproduces nodes and variables within 0.5*10^-precision, and the mesh read back answers every access path, trapezium and interpolation consistently; finally 4..=24 (2-D: 3..=16) steps of queries interleaved with writes through every write path (1-D: interpolation mostly in the cell just written, trapezium; 2-D: trapezium, square_trapezium, var_as_matrix, cross-sections), each answer compared with the model as it is at that moment. Non-trivial: non-uniform grid with >= 3 nodes per direction (2-D: nx != ny as well). distinct = distinct decoded choice sequence."
             .into()
     }
